@@ -73,7 +73,8 @@ def opText (op : String) (a : Args) : Option String := do
     some s!"{central} {stream}"
   | "text.write" =>
     let cs ← (a.get? "chars").bind parseChars
-    match writerStoreName cs with
+    let enc := (a.get? "enc") == some "1"
+    match writerStoreName cs enc with
     | .err e => some (Out.className e)
     | .panic _ => some "panic"
     | .ok st =>
@@ -81,7 +82,7 @@ def opText (op : String) (a : Args) : Option String := do
         | .ok f => s!"back={showScalars f.fileName} raw={toHex f.fileNameRaw}"
         | .err e => Out.className e
         | .panic _ => "panic"
-      some s!"ok stored={toHex st.bytes} len={st.lenField.toNat} flag={if isUtf8Flag st.flags then 1 else 0} {back}"
+      some s!"ok stored={toHex st.bytes} len={st.lenField.toNat} flag={if isUtf8Flag st.flags then 1 else 0} bit0={(st.flags &&& 1).toNat} {back}"
   | _ => none
 
 end Driver
